@@ -157,7 +157,7 @@ def quick_cases(ctx):
             cases.append(mkcase(prog, gs.render(prog, L), L.wrap_rhs, stream='stress:' + lname, seed=seed))
     # C. sampled larger programs
     rng = ctx.sub_rng('sampled')
-    n_big = (4000 if quick else 40000) * ctx.scale
+    n_big = (4000 if quick else 25000) * ctx.scale
     cfg = gs.GenConfig(max_equations=12, max_depth=4, max_lag=3, max_lead=2)
     cfg_deep = gs.GenConfig(max_equations=12, max_depth=4, max_lag=12, max_lead=10)
     for i in range(n_big):
@@ -257,7 +257,11 @@ def observe_(case, rep, want_impl=True):
     impl['tree'] = [ec.code_tree(endo[st.lhs.name].code) if st.lhs.name in endo else None for st in eqs]
     impl['eqtree'] = [ec.eq_tree(endo[st.lhs.name].equation) if st.lhs.name in endo else None for st in eqs]
     body = ec.evaluate_body(b.Model)
-    impl['body'] = [ec.py_tree(node, src, 'code') for src, node in body] if body is not None else None
+    # statements of `_evaluate` that assign to a series (anything else in the template is not the property's business)
+    impl['body'] = None
+    if body is not None:
+        trees = [ec.py_tree(node, src, 'code') for src, node in body]
+        impl['body'] = [tr for tr in trees if tr[0] == 'assign' and isinstance(tr[1], list) and tr[1][0] in ('slot', 'item')]
     for st in eqs:
         if st.lhs.name not in endo:
             violate('equation-missing', f'no symbol carries an equation for {st.lhs.name!r}')
@@ -382,7 +386,8 @@ def compare(case, impl, forms, evalp, rep):
     if evalp is not None and first is not None and first['exc'] is None:
         if evalp.get('ok'):
             rep.dist['eval_pass:compared'] += 1
-            if evalp['data'] != first['data']:
+            canon = lambda d: {k: [ec.canon_bits(x) for x in v] for k, v in d.items()}  # noqa: E731
+            if canon(evalp['data']) != canon(first['data']):
                 rep.disagree('eval_pass values (IEEE bits): model != impl', case, evalp['data'], first['data'])
             if evalp['writes'] != first['writes']:
                 rep.disagree('eval_pass write sequence: model != impl', case, evalp['writes'], first['writes'])
